@@ -207,7 +207,7 @@ theorem simF_defn {n : Nat} (name : String) (ps : List String) (body : List Expr
   have hcn : closingNow s = [some 0] := by unfold closingNow; rw [htop.lin]; exact newClosing_single _
   have hmv : mapWith m s.fns.length rs.clos.length s.fns.length = rs.clos.length := by unfold mapWith; rw [if_pos rfl]
   have hgood : GoodFn (mapWith m s.fns.length rs.clos.length) s₁ rs₁ s.fns.length := by
-    refine ⟨by rw [hfns1]; simp, { ps := ps, rest := none, body := body, env := 0 }, ?_, rfl, rfl, hnd,
+    refine ⟨by rw [hfns1]; simp, htop.main, { ps := ps, rest := none, body := body, env := 0 }, ?_, rfl, rfl, hnd,
       hps, hbody, ?_, ?_, ?_, ?_, ?_, ⟨s.curfunc, ?_, htop.cur, ?_⟩,
       gs.fns.length, b, tl, isFn, bodyCtx c gs name ps body, gsAlloc isFn gs name ps, gsAlloc isFn gs name ps, name,
       ?_, Nat.lt_of_lt_of_le htl hfl1, ?_, hb, rfl, bodyCtx_funcname c gs name ps body, hff⟩
@@ -356,5 +356,92 @@ theorem fclaimT : ∀ n, FClaimT n
           | cont l rs1 => rw [h1] at ih; exact ih.elim
         · intro hh; cases hh
       · intro hh; cases hh
+
+/-! ## `LoadExpressions` + `Run` -/
+
+/-- the VM state with the tables the generator left -/
+def withGen (s : St) (gs' : GS) : St := { s with fns := gs'.fns, loops := gs'.loops, loopstack := gs'.loopstack }
+
+theorem run_runGen_gen {α} (g : G α) (s : St) (a : α) (gs' : GS)
+    (h : g.run { fns := s.fns, loops := s.loops, loopstack := s.loopstack, live := s.linear } = .ok (a, gs')) :
+    (runGen g).run s = (.ok a, withGen s gs') := by
+  unfold runGen
+  simp only [run_bind, run_get, h, run_set, run_pure]
+  rfl
+
+/-- the state after `LoadExpressions` -/
+def loadedF (s : St) (gs' : GS) (code : List Instr) : St :=
+  loadState (clearTrace s) (withGen (clearTrace s) gs') code
+
+theorem fnOf_loadedF (s : St) (gs' : GS) (code : List Instr) (id : Nat) :
+    fnOf (loadedF s gs' code) id
+      = ((List.set gs'.fns mainFn { gs'.fns.getD mainFn {} with
+          code := (gs'.fns.getD mainFn {}).code ++ (if (clearTrace s).pc ≥ curSize (clearTrace s) then [] else [.pop]) ++ code })[id]?).getD {} := by
+  show (List.set gs'.fns mainFn _).getD id {} = _
+  rw [List.getD_eq_getElem?_getD]; rfl
+
+/-- **A non-empty F2a program text, loaded and run** from a resting top-level state related to the
+reference state: `runText` reports what the reference evaluator yields. -/
+theorem runText_Ft (m : Nat → Nat) (s : St) (rs : Ref.St) (p : List Expr) (hne : p ≠ []) (hp : FtList p = true)
+    (hs : AtRest s) (htop : TopCtx s) (hrel : RelF m s rs 0) (n : Nat) :
+    ∃ N, ∀ fuel, N ≤ fuel → TextOut (runText fuel p s) (Ref.evalBegin n p 0 { rs with trace := [] }) := by
+  obtain ⟨code, t, gs', hc, -, hk⟩ := compileBegin_total_Ft p hne hp (isFnScope (clearTrace s)) {}
+    { fns := s.fns, loops := s.loops, loopstack := s.loopstack, live := s.linear } rfl
+  have hload : (runGen (compileBegin (isFnScope (clearTrace s)) {} p)).run (clearTrace s)
+      = (.ok (code, t), withGen (clearTrace s) gs') := run_runGen_gen _ (clearTrace s) _ gs' hc
+  -- the loaded state
+  have hsz : curSize (clearTrace s) = ((fnOf s mainFn).code.length : Int) := by
+    show (if (fnOf s s.curfunc).user then (0 : Int) else ((fnOf s s.curfunc).code.length : Int)) = _
+    rw [hs.cur, hs.user]; rfl
+  have hpre : (if (clearTrace s).pc ≥ curSize (clearTrace s) then ([] : List Instr) else [.pop]) = [] :=
+    if_pos (by rw [hsz]; show s.pc ≥ _; rw [hs.pc]; exact Int.le_refl _)
+  have hmain' : gs'.fns.getD mainFn {} = fnOf s mainFn := hk.fns mainFn hs.main
+  have hmlt : mainFn < gs'.fns.length := Nat.lt_of_lt_of_le hs.main hk.len
+  have hfmain : fnOf (loadedF s gs' code) mainFn = { fnOf s mainFn with code := (fnOf s mainFn).code ++ code } := by
+    rw [fnOf_loadedF, hpre, hmain']
+    simp only [List.getElem?_set_self hmlt, Option.getD_some, List.append_nil]
+  have hfother : ∀ id, id ≠ mainFn → fnOf (loadedF s gs' code) id = gs'.fns.getD id {} := fun id hid => by
+    rw [fnOf_loadedF, List.getElem?_set_ne (fun e => hid e.symm), List.getD_eq_getElem?_getD]
+  have hseg : Seg (loadedF s gs' code) (fnOf s mainFn).code code [] :=
+    ⟨by show (fnOf (loadedF s gs' code) mainFn).user = false; rw [hfmain]; exact hs.user,
+     by show (fnOf (loadedF s gs' code) mainFn).code = _; rw [hfmain]; simp, hs.pc⟩
+  have hlenL : (loadedF s gs' code).fns.length = gs'.fns.length := by
+    show (List.set gs'.fns mainFn _).length = _; simp
+  have hkeep : FnsKeep s (loadedF s gs' code) :=
+    ⟨by rw [hlenL]; exact hk.len, fun id hid hne' => by rw [hfother id hne']; exact hk.fns id hid,
+     by rw [hfmain], by rw [hfmain]⟩
+  have hrelL : RelF m (loadedF s gs' code) { rs with trace := [] } 0 :=
+    hrel.load rfl rfl hs.cur.symm rfl rfl hkeep
+  have htopL : TopCtx (loadedF s gs' code) :=
+    ⟨htop.lin, by show (fnOf (loadedF s gs' code) mainFn).parent = none; rw [hfmain]; have := htop.par; rw [hs.cur] at this; exact this,
+     by show mainFn < _; rw [hlenL]; exact hmlt, by rw [hlenL]; exact hmlt⟩
+  have hsim := fclaimT n p hne hp _ {} _ ((code, t), gs') hc rfl htop.lin m (loadedF s gs' code) { rs with trace := [] }
+    (fnOf s mainFn).code [] hrelL htopL (by rw [hlenL]; exact Nat.le_refl _)
+    (fun t' h1 h2 => hfother t' (by have := hs.main; simp only at h1; omega)) hseg
+  cases hres : Ref.evalBegin n p 0 { rs with trace := [] } with
+  | ok v' rs' =>
+    rw [hres] at hsim
+    obtain ⟨s1, m1, v, r, l, hv, rel1, -, -, -, -⟩ := hsim
+    obtain ⟨N, hN⟩ := run_of_landsE hseg r l
+    refine ⟨N, fun fuel hf => ?_⟩
+    refine ⟨s1.jmp s1.pc (loadedF s gs' code).data, depths (s1.jmp s1.pc (loadedF s gs' code).data), ?_⟩
+    have e : loadState (clearTrace s) (withGen (clearTrace s) gs') code = loadedF s gs' code := rfl
+    rw [runText_eq]
+    simp only [hload, e, hN fuel hf]
+    have hpr : pr (s1.jmp s1.pc (loadedF s gs' code).data).heap v = pr rs'.heap v' := by
+      rw [hv, rel1.heap]; exact (pr_tr m1 id id s1.heap v).symm
+    rw [hpr, show (s1.jmp s1.pc (loadedF s gs' code).data).trace = rs'.trace from rel1.trace]
+  | err rs' =>
+    rw [hres] at hsim
+    obtain ⟨N, hN⟩ := run_of_failsE hsim
+    refine ⟨N, fun fuel hf => ?_⟩
+    obtain ⟨sf, hrun, htr⟩ := hN fuel hf
+    refine ⟨sf, depths sf, ?_⟩
+    have e : loadState (clearTrace s) (withGen (clearTrace s) gs') code = loadedF s gs' code := rfl
+    rw [runText_eq]
+    simp only [hload, e, hrun, htr]
+  | timeout => exact ⟨0, fun _ _ => trivial⟩
+  | brk l rs' => rw [hres] at hsim; exact hsim.elim
+  | cont l rs' => rw [hres] at hsim; exact hsim.elim
 
 end ZygoVerif.Sim
